@@ -3445,8 +3445,7 @@ class SetInstance(object):
             attr.cached_count_sql = sql, adapter
         else: sql, adapter = cached_sql
         arguments = adapter(obj._get_raw_pkval_())
-        with cache.flush_disabled():
-            cursor = database._exec_sql(sql, arguments)
+        cursor = database._exec_sql(sql, arguments)  # flushes pending changes first, unless flush is disabled
         setdata.count = cursor.fetchone()[0]
         if setdata.added: setdata.count += len(setdata.added)
         if setdata.removed: setdata.count -= len(setdata.removed)
